@@ -270,6 +270,12 @@ def discharge(ctx, s, scope=None):
                 if a[0] == 'cmp' and a[1] == 'Le' and a[2] == sa and a[3].isdigit() and int(a[3]) <= width - 1:
                     return 'shift amount %s is at most %s on every path to the shift (dominating condition)' % (sa, a[3])
     if kind == 'assert:overflow:Sub' and len(ops) == 2:
+        # i - lo with i drawn from lo..hi
+        a0 = ops[0]
+        while a0.tag in ('cast', 'via'):
+            a0 = a0[2]
+        if a0.tag == 'index' and a0[1].tag == 'range' and canon(a0[1][1]) == canon(ops[1]):
+            return 'minuend is drawn from the range %s.. and the subtrahend is its lower bound' % canon(ops[1])
         c = _const_int(ops[1])
         lo = _range_lower(ops[0])
         if c is not None and lo is not None and lo >= c:
